@@ -50,6 +50,9 @@ ASSUMPTIONS = ["chunk >= 1", "text files are decoded by open() defaults (the pro
 
 LINE_RX = r"(?P<l>[^\n]*\n|[^\n]+)"
 BLOCK_RX = r"(?P<a>[^\n]*)\n(?P<b>[^\n]*)\n"
+CONT_RX = r"(?P<l>[^\n]*\n(?: [^\n]*\n)*)"      # a line and the complete indented lines after it: the last match
+#                                                   can grow although it does not reach the end of the buffer
+SCANNER_RX = {"line": LINE_RX, "linem": LINE_RX, "block": BLOCK_RX, "cont": CONT_RX}
 
 
 def parse_fn():
@@ -375,6 +378,8 @@ ADV_RX = [r"(?P<x>a+)", r"(?P<x>a+b?)", r"(?P<x>a*)", r"(?<=a)(?P<b>b)", r"(?P<x
           r"(?P<x>a.*?b)", r"(?s)(?P<x>a.*?b)", r"(?P<x>(?:ab)+)", r"(?m)^(?P<x>a*)$", r"(?<!a)(?P<x>b+)",
           r"(?P<x>b+)(?!a)", r"(?P<q>a{2,3})", r"(?P<x>ab|b\n)", r"(?P<x>[^\n]*\n|[^\n]+)", BLOCK_RX,
           r"(?P<t>This[\s\S]*Text\n)", r"(?P<x>a)(?P<y>b)?",
+          # the last match can grow although it does not reach the end of the buffer
+          CONT_RX, r"(?P<x>(?:ab)+)\n?", r"(?P<h>[ab]\n)(?P<c>(?: [^\n]*\n)*)", r"(?P<x>a(?: b)*)(?P<e>)",
           # outside the domain on purpose (look-behind / anchors at a previous match, unbounded look-ahead)
           r"(?m)(?P<y>b)|^(?P<x>a)", r"(?P<x>ab|(?<=b)c)", r"(?P<x>a)(?![\s\S]*c)", r"(?P<y>b)|\b(?P<x>a)",
           r"(?P<x>a+)$", r"(?P<x>a\n?)\Z|(?P<y>b)"]
@@ -527,6 +532,420 @@ def early_close_case(ctx, rx_src, text, kind, k, wd):
     return 0
 
 
+# ----------------------------------------------------------------------------- lazy pipeline: event traces, faults
+class RecFile:
+    """a file object that records what is done to it: "R" per read call, "C" per close call; the k-th
+    `read(chunk)` call (the initial `read(0)` is call 0) can be made to raise OSError"""
+
+    def __init__(self, inner, log, fail_at=None):
+        self.inner, self.log, self.fail_at = inner, log, fail_at
+        self.calls, self.pieces, self.first = 0, [], None
+
+    def read(self, n=-1):
+        self.log.append("R")
+        if self.first is None:
+            self.first = self.inner.read(n)
+            return self.first
+        self.calls += 1
+        if self.fail_at is not None and self.calls == self.fail_at:
+            self.pieces.append(None)
+            raise OSError("injected read fault")
+        piece = self.inner.read(n)
+        self.pieces.append(piece)
+        return piece
+
+    def __enter__(self):
+        return self
+
+    def __exit__(self, *exc):
+        self.close()
+        return False
+
+    def close(self):
+        self.log.append("C")
+        self.inner.close()
+
+    @property
+    def closed(self):
+        return self.inner.closed
+
+
+class OpenRec:
+    """`open` as seen by loguru._logger replaced by one that logs "O" and hands out a RecFile"""
+
+    def __init__(self, log, fail_at):
+        self.log, self.fail_at, self.files = log, fail_at, []
+
+    def __enter__(self):
+        import loguru._logger as L
+        self.L = L
+        self.had = "open" in L.__dict__
+        self.old = L.__dict__.get("open")
+        L.open = self._open
+        return self
+
+    def _open(self, *a, **kw):
+        f = open(*a, **kw)
+        self.log.append("O")
+        rf = RecFile(f, self.log, self.fail_at)
+        self.files.append(rf)
+        return rf
+
+    def __exit__(self, *exc):
+        if self.had:
+            self.L.open = self.old
+        else:
+            del self.L.open
+        for rf in self.files:
+            try:
+                rf.inner.close()
+            except Exception:
+                pass
+        return False
+
+
+class Raiser:
+    """a converter: prefixes the value with '#' (None becomes ('#', None)); raises ValueError on its call
+    number `at` (0-based) or, if `marker` is given, on a value containing the marker"""
+
+    def __init__(self, at=None, marker=None):
+        self.at, self.marker, self.n = at, marker, 0
+
+    def __call__(self, v):
+        i = self.n
+        self.n += 1
+        if self.at is not None and i == self.at:
+            raise ValueError("injected converter fault")
+        if self.marker is not None and v is not None and self.marker in v:
+            raise ValueError("injected converter fault")
+        if v is None:
+            return ("#", None)
+        return (b"#" if isinstance(v, bytes) else "#") + v
+
+
+def cast_is_faulty(c):
+    return (c[0] == "dict" and (c[2] is not None or c[3] is not None)) or \
+        (c[0] == "fn" and (c[1] is not None or c[2] is not None))
+
+
+def mk_fault_cast(spec, is_bytes):
+    """spec: ["none"] | ["dict", key, at|None, marker|None] | ["fn", at|None, marker|None] | ["invalid"]
+    -> (cast argument or None, fresh pure simulator: list of groupdicts -> (list of expected dicts, raised?))"""
+    def mk_marker(m):
+        if m is None:
+            return None
+        return m.encode("latin-1") if is_bytes else m
+
+    if spec[0] == "none":
+        return None, (lambda gds: (gds, False))
+    if spec[0] == "invalid":
+        return 123, None
+    if spec[0] == "dict":
+        _, key, at, marker = spec
+        marker = mk_marker(marker)
+
+        def build():
+            return {key: Raiser(at, marker), "zz_absent": (lambda v: v)}
+
+        def sim(gds):
+            conv = build()
+            out = []
+            for g in gds:
+                g = dict(g)
+                try:
+                    for kk, c in conv.items():
+                        if kk in g:
+                            g[kk] = c(g[kk])
+                except ValueError:
+                    return out, True
+                out.append(g)
+            return out, False
+        return build(), sim
+    if spec[0] == "fn":
+        _, at, marker = spec
+        marker = mk_marker(marker)
+
+        def build():
+            r = Raiser(at, None)
+
+            def fn(g):
+                i = r.n
+                r.n += 1
+                if at is not None and i == at:
+                    raise ValueError("injected cast fault")
+                if marker is not None and any(v is not None and marker in v for v in g.values()):
+                    raise ValueError("injected cast fault")
+                for kk in sorted(g):
+                    if g[kk] is not None:
+                        g[kk] = (b"#" if isinstance(g[kk], bytes) else "#") + g[kk]
+            return fn
+
+        def sim(gds):
+            fn = build()
+            out = []
+            for g in gds:
+                g = dict(g)
+                try:
+                    fn(g)
+                except ValueError:
+                    return out, True
+                out.append(g)
+            return out, False
+        return build(), sim
+    raise ValueError(spec)
+
+
+FAULT_SOURCES_STR = ["stringio", "path", "pathlib", "pathlike", "pathlike_str", "textfile"]
+FAULT_SOURCES_BYTES = ["bytesio", "binfile"]
+
+
+def run_fault(case, wd):
+    """Execute one use of the generator `parse(...)` as `case` describes and record the event log.
+    case: pattern (str source or None = invalid pattern), bytes, text, source, chunk, cast (fault-cast spec),
+    limit (None | n), fail_at (None | k), mismatch (bool: pattern of the other string type), missing (bool: the
+    path does not exist).  -> dict(log, pieces, seen, file_kind, first)"""
+    is_bytes, text, kind = case["bytes"], case["text"], case["source"]
+    data = text.encode("utf8") if is_bytes else text
+    log = []
+    rx_src = case["pattern"]
+    if rx_src is None:
+        pat = 123
+    else:
+        pat = rx_src.encode("ascii") if (is_bytes != bool(case.get("mismatch"))) else rx_src
+    cast, sim = mk_fault_cast(case["cast"], is_bytes)
+    seen, path, wrapped, opened_by_me = data, None, None, None
+    file_kind = {"stringio": "textFile", "bytesio": "binaryFile", "textfile": "textFile", "binfile": "binaryFile",
+                 "path": "pathStr", "pathlib": "pathLike", "pathlike": "pathLike", "pathlike_str": "pathLike",
+                 "other": "other"}[kind]
+    if kind == "stringio":
+        wrapped = RecFile(io.StringIO(data), log, case.get("fail_at"))
+        src = wrapped
+    elif kind == "bytesio":
+        wrapped = RecFile(io.BytesIO(data), log, case.get("fail_at"))
+        src = wrapped
+    elif kind == "other":
+        src = object()
+    else:
+        raw = data if is_bytes else data.encode("utf8")
+        path = wd.file(raw)
+        if not is_bytes:
+            with open(path) as f:
+                seen = f.read()
+        if case.get("missing"):
+            path = path + ".missing"
+        if kind == "textfile":
+            opened_by_me = open(path) if not case.get("missing") else None
+            wrapped = RecFile(opened_by_me, log, case.get("fail_at"))
+            src = wrapped
+        elif kind == "binfile":
+            opened_by_me = open(path, "rb")
+            wrapped = RecFile(opened_by_me, log, case.get("fail_at"))
+            src = wrapped
+        elif kind == "path":
+            src = path
+        elif kind == "pathlib":
+            src = pathlib.Path(path)
+        elif kind == "pathlike":
+            src = PathLikeObj(path)
+        else:
+            src = PathLikeStr(path)
+    limit = case.get("limit")
+    yields = []
+    exc = None
+    with OpenRec(log, case.get("fail_at")) as orec:
+        kw = {} if cast is None else {"cast": cast}
+        gen = parse_fn()(src, pat, chunk=case["chunk"], **kw)
+        try:
+            if limit != 0:
+                for d in gen:
+                    yields.append(d)
+                    log.append(("Y", d))
+                    if limit is not None and len(yields) >= limit:
+                        break
+        except Exception as e:  # noqa
+            exc = e
+            log.append("E" + core.err_kind(e).split(":")[0])
+        finally:
+            gen.close()
+        rf = orec.files[0] if orec.files else wrapped
+        still_open = [f for f in orec.files if not f.inner.closed]
+    caller_closed = bool(wrapped is not None and wrapped.inner is not None and wrapped.inner.closed)
+    if opened_by_me is not None:
+        opened_by_me.close()
+    return {"log": log, "pieces": list(rf.pieces) if rf is not None else [], "first": rf.first if rf is not None else None,
+            "seen": seen, "file_kind": file_kind, "yields": yields, "exc": exc, "sim": sim, "pat": pat,
+            "opened": len(orec.files), "still_open": len(still_open), "caller_closed": caller_closed}
+
+
+def judge_fault(ctx, case, res, stream):
+    """DIRECT ORACLE on one faulty / abandoned iteration (independent of the Lean model):
+    (i) a file the function opened is closed – exactly once, nothing read or yielded afterwards – however the
+    iteration ended; a caller's file object is never closed;  (ii) what the consumer received before the
+    iteration ended is exactly the beginning of [cast(m.groupdict()) for m in re.finditer(...)]: all of it when
+    nothing failed and the consumer did not stop, exactly `limit` items when it stopped, exactly the records
+    before the one whose converter raised.  Returns 1 if a violation was reported."""
+    log = res["log"]
+    rep = dict(case, stream="fault")
+    how = ("the consumer closed the generator after %r item(s)" % case.get("limit") if case.get("limit") is not None
+           else "exhaustion") + ("; read #%d raises OSError" % case["fail_at"] if case.get("fail_at") else "") + \
+        ("; a converter raises" if cast_is_faulty(case["cast"]) else "")
+    marks = [x if isinstance(x, str) else "Y" for x in log]
+    if res["opened"]:
+        # closed exactly once; afterwards nothing happens except that the exception (if any) reaches the consumer
+        if res["still_open"] or marks.count("C") != 1 or any(not m.startswith("E") for m in marks[marks.index("C") + 1:]):
+            ctx.violation("file opened by parse(%s, %r, chunk=%d) on %r is %s after the iteration ended (%s): events %s"
+                          % (case["source"], case["pattern"], case["chunk"], case["text"],
+                             "still open" if res["still_open"] else "not closed exactly once at the end", how,
+                             "".join(m[0] for m in marks)), dict(rep, what="closed"))
+            return 1
+        ctx.stat("fault_closed_ok")
+    elif res["caller_closed"] or "C" in marks:
+        ctx.violation("the caller's file object passed to parse(%s) was closed by the function (%s)" % (case["source"], how),
+                      dict(rep, what="caller-closed"))
+        return 1
+    if case["pattern"] is None or case["cast"][0] == "invalid" or case["source"] == "other" or case.get("mismatch") \
+            or case.get("missing"):
+        if res["yields"]:
+            ctx.violation("parse(%s) with an invalid argument yielded %d item(s)" % (case["source"], len(res["yields"])),
+                          dict(rep, what="yields"))
+            return 1
+        return 0
+    rx_c = re.compile(res["pat"])
+    gds = [m.groupdict() for m in rx_c.finditer(res["seen"])]
+    exp, raised = res["sim"](gds)
+    got = res["yields"]
+    lim = case.get("limit")
+    want = exp if lim is None else exp[:lim]
+    ok = (got == want) if not case.get("fail_at") else (got == want[:len(got)])
+    if not ok:
+        ctx.violation("parse(%s, %r, chunk=%d) on %r (%s): the consumer received %r…, re.finditer + cast give %r…"
+                      % (case["source"], case["pattern"], case["chunk"], case["text"], how, canon(got)[:4], canon(want)[:4]),
+                      dict(rep, what="yields", expected=canon(want), observed=canon(got)))
+        return 1
+    ctx.stat("fault_yields_ok")
+    return 0
+
+
+def gen_fault(rng, nmatches, ndata, group_names):
+    """a way for the iteration to end other than plain exhaustion"""
+    case = {"limit": None, "fail_at": None}
+    r = rng.below(10)
+    cast = ["none"]
+    if r < 3:
+        case["limit"] = rng.choice([0, 1, 1, 2, max(1, nmatches - 1), max(1, nmatches), nmatches + 1])
+        cast = rng.choice([["none"], ["fn", None, None]] + ([["dict", rng.choice(group_names), None, None]] if group_names else []))
+    elif r < 6:
+        at = rng.range(0, max(0, nmatches))
+        cast = ["fn", at, None] if (rng.chance(40) or not group_names) else ["dict", rng.choice(group_names), at, None]
+        if rng.chance(30):
+            case["limit"] = rng.range(1, nmatches + 1)
+    elif r < 9:
+        case["fail_at"] = rng.range(1, ndata + 2)
+        if rng.chance(30):
+            case["limit"] = rng.range(1, nmatches + 1)
+        cast = rng.choice([["none"], ["fn", None, None]])
+    else:
+        case["fail_at"] = rng.range(1, ndata + 2)
+        cast = ["fn", rng.range(0, max(0, nmatches)), None]
+    case["cast"] = cast
+    return case
+
+
+def trace_stream(ctx, drv, rng, wd, boost):
+    """tie C for Parse/Trace.lean: the real event sequence (open, every read call, every item the consumer
+    receives, the exception that reaches it, close) of `parse` with the line regex against `parseTrace` in the
+    Lean model, over sources × casts × consumer limits × read faults × converter faults × wrong-typed
+    patterns × missing files × invalid arguments; the direct oracle `judge_fault` judges the same runs."""
+    n = ctx.n(500, 8000) * boost
+    lines, metas = [], []
+    for i in range(n):
+        t = gen_model_text(rng)
+        if rng.chance(40):
+            t = t.replace("a", "b", 1)
+        is_bytes = rng.chance(25)
+        kind = rng.choice(FAULT_SOURCES_BYTES if is_bytes else FAULT_SOURCES_STR)
+        if "\r" in t and kind not in ("stringio", "bytesio", "binfile"):
+            kind = "bytesio" if is_bytes else "stringio"
+        data_len = len(t.encode("utf8")) if is_bytes else len(t)
+        k = rng.range(1, data_len + 1) if rng.chance(80) else rng.choice([1, 2, 64, 65536])
+        nm = len(re.findall(LINE_RX, t))
+        case = {"pattern": LINE_RX, "bytes": is_bytes, "text": t, "source": kind, "chunk": k,
+                "limit": None, "fail_at": None, "cast": ["none"], "seed": 0}
+        r = rng.below(20)
+        marker = rng.choice(["b", "b", "\n", "é" if not is_bytes else "b"])
+        if r < 4:
+            pass
+        elif r < 8:
+            case["limit"] = rng.choice([0, 1, 1, 2, 3, max(1, nm), nm + 1])
+            case["cast"] = rng.choice([["none"], ["dict", "l", None, None], ["fn", None, None]])
+        elif r < 12:
+            case["cast"] = rng.choice([["dict", "l", None, marker], ["fn", None, marker]])
+            if rng.chance(30):
+                case["limit"] = rng.range(1, nm + 1)
+        elif r < 16:
+            case["fail_at"] = rng.range(1, data_len // max(1, k) + 2)
+            case["cast"] = rng.choice([["none"], ["dict", "l", None, marker], ["fn", None, None]])
+            if rng.chance(30):
+                case["limit"] = rng.range(1, nm + 1)
+        elif r == 16:
+            case["mismatch"] = True
+            if rng.chance(50):
+                case["fail_at"] = 1
+        elif r == 17:
+            if kind in ("path", "pathlib", "pathlike", "pathlike_str"):
+                case["missing"] = True
+            else:
+                case["cast"] = ["invalid"]
+        elif r == 18:
+            case["pattern"] = None
+            case["cast"] = rng.choice([["none"], ["invalid"]])
+        else:
+            case["source"] = "other"
+            case["cast"] = rng.choice([["none"], ["invalid"], ["fn", None, None]])
+        res = run_fault(case, wd)
+        ctx.case(("trace", t, is_bytes, case["source"], k, json.dumps(case["cast"]), case["limit"], case["fail_at"],
+                  bool(case.get("mismatch")), bool(case.get("missing")), case["pattern"] is None),
+                 nontrivial=(nm >= 2 and (case["limit"] not in (None, 0) or case["fail_at"] or case["cast"][0] != "none")))
+        ctx.stat("trace_cases")
+        ctx.stat("trace_end:" + ("limit" if case["limit"] is not None else "exhaustion")
+                 + ("+readfault" if case["fail_at"] else "") + ("+castfault" if cast_is_faulty(case["cast"]) else ""))
+        ctx.traces_validated += 1
+        if judge_fault(ctx, case, res, "trace"):
+            return
+        # the model line: exactly the read outcomes the implementation met
+        def wire(p):
+            if p is None:
+                return "!OSError"
+            return enc(latin(p) if isinstance(p, bytes) else p)
+        c = case["cast"]
+        if c[0] == "dict":
+            cs = "dict" if not c[3] else "dictraise:%d" % ord(c[3])
+        elif c[0] == "fn":
+            cs = "fn" if not c[2] else "fnraise:%d" % ord(c[2])
+        else:
+            cs = c[0]
+        lines.append("trace %s %d %s %d %d %s %s %d %s" % (
+            res["file_kind"], 0 if case["source"] == "pathlike" else 1, "OSError" if case.get("missing") else "-",
+            0 if case.get("mismatch") else 1, 0 if case["pattern"] is None else 1, cs,
+            "-" if case["limit"] is None else str(case["limit"]), k, " ".join(wire(p) for p in res["pieces"])))
+        impl = ",".join(x if isinstance(x, str) else "Y" + enc(latin(x[1]["l"]) if is_bytes else x[1]["l"]) for x in res["log"]) or "_"
+        metas.append((case, impl))
+        if wd.n > 200:
+            shutil.rmtree(wd.d, ignore_errors=True)
+            os.makedirs(wd.d, exist_ok=True)
+            wd.n = 0
+    out = drv.run([l.rstrip() for l in lines])
+    bad = 0
+    for (case, impl), o in zip(metas, out):
+        if impl != o:
+            bad += 1
+            ctx.stat("trace_disagreements")
+            if bad <= 3:
+                ctx.broke("correspondence Parse.parseTrace (tie C, event traces)",
+                          "case=%s implementation=%s model=%s" % (json.dumps(case, ensure_ascii=True), impl, o))
+
+
+
 # ----------------------------------------------------------------------------- model stream
 def latin(b):
     return b.decode("latin-1")
@@ -562,30 +981,32 @@ def model_stream(ctx, drv, rng, boost):
     lines, meta = [], []
     for i in range(n):
         t = gen_model_text(rng)
+        if rng.chance(40):
+            t = t.replace("\na", "\n ").replace("\nb", "\n  ")      # indented continuation lines
         is_bytes = rng.chance(25)
         if is_bytes:
             data = t.encode("utf8")
             wire = latin(data)
         else:
             data = wire = t
-        for sc in ("line", "block", "linem"):
+        for sc in ("line", "block", "linem", "cont"):
             lines.append("fi %s %s" % (sc, enc(wire)))
             meta.append(("fi", sc, data, is_bytes, None))
             lines.append("scan %s %s" % (sc, enc(wire)))
             meta.append(("scan", sc, data, is_bytes, None))
         if rng.chance(50):
-            sc = rng.choice(["line", "block", "linem"])
+            sc = rng.choice(["line", "block", "linem", "cont", "cont"])
             seed = rng.below(1 << 30)
             k = rng.range(1, max(1, len(data)) + 1)
             rd = ShortReader(data, seed)
-            rx = BLOCK_RX if sc == "block" else LINE_RX
+            rx = SCANNER_RX[sc]
             got = run_parse(rd, rx.encode() if is_bytes else rx, k, None)
             reads = [latin(p) if is_bytes else p for p in rd.reads]
             lines.append(("reads %s " % sc) + " ".join(enc(p) for p in reads + [""]))
             meta.append(("reads", sc, data, is_bytes, (k, seed, got)))
     out = drv.run(lines)
     for (op, sc, data, is_bytes, aux), o in zip(meta, out):
-        rx = BLOCK_RX if sc == "block" else LINE_RX
+        rx = SCANNER_RX[sc]
         pat = rx.encode() if is_bytes else rx
         rx_c = re.compile(pat)
 
@@ -846,6 +1267,10 @@ def run(ctx):
             model_stream(ctx, drv, rng.fork("model"), boost)
         except core.DriverError as e:  # broken tie: reported, and the direct oracle below decides
             ctx.broke("driver:" + DRIVER, str(e))
+        try:
+            trace_stream(ctx, drv, rng.fork("trace"), wd, boost)
+        except core.DriverError as e:
+            ctx.broke("driver:" + DRIVER, str(e))
         oracle_stream(ctx, rng.fork("oracle"), wd, boost)
         rt_stream(ctx, rng.fork("roundtrip"), wd, boost)
     finally:
@@ -908,6 +1333,16 @@ def oracle_stream(ctx, rng, wd, boost):
         fails += judge_case(ctx, rx_src, text, is_bytes, kind, cast_spec, ks2, wd, seed)
         if kind in ("path", "pathlib", "pathlike", "pathlike_str") and rng.chance(50):
             fails += early_close_case(ctx, rx_src, text, kind, rng.choice(ks2), wd)
+        if rng.chance(35):
+            # the iteration ends some other way than plain exhaustion: consumer closes, converter / read raises
+            fc = gen_fault(rng, nm, len(data), sorted(x if isinstance(x, str) else x.decode() for x in rx_c.groupindex))
+            fkind = rng.choice(FAULT_SOURCES_BYTES if is_bytes else FAULT_SOURCES_STR)
+            if "\r" in text and fkind not in ("stringio", "bytesio", "binfile"):
+                fkind = "bytesio" if is_bytes else "stringio"
+            fc.update(pattern=rx_src, bytes=is_bytes, text=text, source=fkind, chunk=rng.choice(ks), seed=0)
+            ctx.stat("fault_cases")
+            ctx.stat("fault_source:" + fkind)
+            fails += judge_fault(ctx, fc, run_fault(fc, wd), "oracle")
         if wd.n > 200:
             shutil.rmtree(wd.d, ignore_errors=True)
             os.makedirs(wd.d, exist_ok=True)
@@ -963,6 +1398,24 @@ def replay(ctx, rep):
             bad = got != ("ok", exp)
             print("REPRODUCED" if bad else "not reproduced")
             return 1 if bad else 0
+        if r.get("stream") == "fault":
+            class C:  # minimal ctx
+                bad = False
+
+                def stat(self, *a):
+                    pass
+
+                def violation(self, what, rp, **kw):
+                    print(what)
+                    self.bad = True
+            c = C()
+            case = {k: v for k, v in r.items() if k not in ("stream", "what", "expected", "observed")}
+            res = run_fault(case, wd)
+            print("case:", case)
+            print("events:", [x if isinstance(x, str) else ("Y", canon(x[1])) for x in res["log"]])
+            judge_fault(c, case, res, "replay")
+            print("REPRODUCED" if c.bad else "not reproduced")
+            return 1 if c.bad else 0
         if r.get("stream") == "args":
             p = wd.file(b"a\nb\n")
             fobj = {"other": object(), "pathStr": p, "pathLike": pathlib.Path(p)}.get(r["file"])
@@ -1017,8 +1470,8 @@ def replay(ctx, rep):
         print("in property domain ((R),(P) on this text):", in_domain(re.compile(pat), content)[0])
         print("expected (re.finditer):", canon(exp))
         print("implementation:        ", canon(got[1]) if got[0] == "ok" else got)
-        if rx_src in (LINE_RX, BLOCK_RX) and r["source"] in ("stringio", "bytesio"):
-            sc = "line" if rx_src == LINE_RX else "block"
+        if rx_src in (LINE_RX, BLOCK_RX, CONT_RX) and r["source"] in ("stringio", "bytesio"):
+            sc = {LINE_RX: "line", BLOCK_RX: "block", CONT_RX: "cont"}[rx_src]
             wire = latin(data) if is_bytes else data
             try:
                 o = core.Driver(DRIVER).run(["fi %s %s" % (sc, enc(wire))])[0].split(" ")
